@@ -18,7 +18,8 @@ EXTENDS Integers, Sequences, FiniteSets, TLC, Json
 CONSTANTS NB,        \* honest blocks 1..NB
           NID,       \* identity CIDs 0..NID-1
           MaxBatch,  \* longest PutMany argument
-          Wide       \* BOOLEAN: all CID variants (FALSE: two aliases per block, one per identity)
+          Wide,      \* BOOLEAN: all CID variants (FALSE: two aliases per block, one per identity)
+          Inners     \* kinds of store the identity store may wrap in this run (subset of AllInners)
 
 Blocks == 1..NB
 Ids    == 0..(NID-1)
@@ -64,20 +65,49 @@ CidTable == {[c |-> c, mh |-> Mh(c), isid |-> IsId(c)] : c \in Cids}
 ASSUME UniverseOK == /\ \A h, g \in Blocks : (BSize(h) = 0 /\ BSize(g) = 0) => h = g
                      /\ \A k, j \in Ids : (IdSize(k) = 0 /\ IdSize(j) = 0) => k = j
 
+(* ---- what the identity store wraps ----------------------------------------------------
+   NewIdStore(bs) accepts ANY Blockstore.  The wrapped store may or may not offer the optional
+   capabilities (Viewer = zero-copy View, AllKeysChanWithErrer); the identity store itself always
+   offers all of them and must answer identically whatever is underneath.  Kinds:
+     "plain"                the default blockstore itself (no Viewer)
+     "w" "wV" "wA" "wVA"    the default blockstore behind a transparent wrapper that exposes exactly
+                            the named optional capabilities (V = Viewer, A = AllKeysChanWithErrer);
+                            such a Viewer knows nothing about identity CIDs: it reports what is stored
+     "tq" "bloom"           the default blockstore behind CachedBlockstore (two-queue cache only /
+                            two-queue cache + Bloom filter, build awaited); both layers are Viewers   *)
+AllInners == {"plain", "w", "wV", "wA", "wVA", "tq", "bloom"}
+InnerBase(k) == CASE k = "plain" -> "plain"
+                  [] k \in {"w", "wV", "wA", "wVA"} -> "wrap"
+                  [] k = "tq" -> "tq"
+                  [] k = "bloom" -> "bloom"
+InnerCaps(k) == CASE k = "plain" -> {"akerr"}
+                  [] k = "w"   -> {}
+                  [] k = "wV"  -> {"viewer"}
+                  [] k = "wA"  -> {"akerr"}
+                  [] k = "wVA" -> {"viewer", "akerr"}
+                  [] k \in {"tq", "bloom"} -> {"viewer", "akerr"}
+InnerTable == {[kind |-> k, base |-> InnerBase(k), caps |-> InnerCaps(k)] : k \in Inners}
+ASSUME InnersOK == Inners # {} /\ Inners \subseteq AllInners
+
 VARIABLES store,   \* set of multihashes currently in the backing datastore
-          cfg      \* [wt |-> BOOLEAN, np |-> BOOLEAN, ids |-> BOOLEAN]  WriteThrough / NoPrefix / NewIdStore
+          cfg      \* [wt, np, ids : BOOLEAN, inner : Inners]  WriteThrough / NoPrefix / NewIdStore / what it wraps
 vars == <<store, cfg>>
 
-Cfgs == [wt : BOOLEAN, np : BOOLEAN, ids : BOOLEAN]
+\* the inner-store kind is a dimension of the identity-store wrapper; without the wrapper the store
+\* under test is the default blockstore itself
+Cfgs == {c \in [wt : BOOLEAN, np : BOOLEAN, ids : BOOLEAN, inner : Inners] : c.ids \/ c.inner = "plain"}
 
 Init == store = {} /\ cfg \in Cfgs
 
 (* ---- what a caller must observe (the property) ------------------------------------ *)
-Present(c) == IF cfg.ids /\ IsId(c) THEN TRUE ELSE Mh(c) \in store
-\* Get/View/GetSize: found => the bytes/size of multihash Mh(c), delivered under the CID asked for;
-\* absent => not-found (GetSize: -1)
-ReadRes(c) == IF Present(c) THEN [found |-> TRUE,  mh |-> Mh(c),       size |-> Size(Mh(c))]
-                            ELSE [found |-> FALSE, mh |-> <<"none", 0>>, size |-> -1]
+\* stated for an arbitrary configuration cf and map st so that invariants can compare configurations
+PresentIn(cf, st, c) == IF cf.ids /\ IsId(c) THEN TRUE ELSE Mh(c) \in st
+\* Has/Get/GetSize/View (EVERY read API, the optional View included): found => the bytes/size of
+\* multihash Mh(c), delivered under the CID asked for; absent => not-found (GetSize: -1)
+ReadResIn(cf, st, c) == IF PresentIn(cf, st, c) THEN [found |-> TRUE,  mh |-> Mh(c),       size |-> Size(Mh(c))]
+                                                ELSE [found |-> FALSE, mh |-> <<"none", 0>>, size |-> -1]
+Present(c) == PresentIn(cfg, store, c)
+ReadRes(c) == ReadResIn(cfg, store, c)
 AllKeysRes == store          \* as a set of multihashes (each reported as a CIDv1-raw)
 
 (* ---- mutators ---------------------------------------------------------------------- *)
@@ -104,4 +134,7 @@ IdentityInlined == cfg.ids => \A c \in Cids : IsId(c) =>
                       /\ ReadRes(c).mh = Mh(c) /\ ReadRes(c).size = DigestLen(Mh(c))
                       /\ MhLen(Mh(c)) = ReadRes(c).size + 1 + VarintLen(ReadRes(c).size)
 AliasSameEntry == \A c, d \in Cids : Mh(c) = Mh(d) => ReadRes(c) = ReadRes(d)
+\* the wrapper is transparent: whatever kind of store the identity store wraps (Viewer or not, cached
+\* or not) and whatever the write options, every CID reads the same, and the same entries are enumerated
+WrapperTransparent == \A cf \in Cfgs : cf.ids = cfg.ids => \A c \in Cids : ReadResIn(cf, store, c) = ReadRes(c)
 =============================================================================
